@@ -474,8 +474,12 @@ def check_struct_block(ctx):
             names = [canon(x) for x in loop.target.elts]
             if keyed is not None and keyed.endswith('.is_bigendian') and isinstance(be, ast.Name) and names == [be.id, grp.id]:
                 ctx.holds(rule, ff, st, 'run keyed on is_bigendian, packed with that key', c.lineno, clause='d')
+            elif keyed is None:
+                # the runs come from something the rule does not read as a groupby (a helper that returns
+                # the (key, run) pairs): no verdict -- a key that IS found and is not the endianness is one
+                ctx.undecided(rule, ff, st, 'cannot see what the runs handed to the struct block are keyed on', c.lineno, clause='d')
             else:
-                ctx.violation(rule, ff, st, 'the run handed to the struct block is keyed on %s and packed with %s: fields of different endianness share one format prefix' % (keyed, canon(be)), c.lineno, clause='d')
+                ctx.violation(rule, ff, st, 'the run handed to the struct block is keyed on %s and packed with %s: fields of different endianness share one format prefix' % (keyed, canon(be)), c.lineno, clause='d', witness=True)
             continue
         gen = comp.generators[0]
         # case 1: singleton [(a, b, f)] with f.is_bigendian
